@@ -47,8 +47,8 @@ CLAIMS = {
          "(C01_accept_sound: whatever compile accepts is derivable from start : expr EOF, all tokens consumed); every derivable token list has each kind "
          "of bracket balanced, the brackets properly nested (a well-nested word over the three bracket kinds) and ends in a closing token (C01_accepted_shape, mutual induction over the derivation), so unbalanced, dangling or empty texts are "
          "never accepted. The relation is inhabited by everything C04's round trip covers (C01_trees_derivable). PARTIAL because completeness against the whole grammar "
-         "is not proved (C04 proves that the rendering of every surface tree - operators, postfix forms, calls, collection and scalar literals - is accepted with the right tree; message "
-         "literals are outside it) and the positions of syntax errors are ANTLR's own (macro-error positions are the model's pos_for, in character columns, compared per case). "
+         "is not proved (C04 proves that the rendering of every surface tree - operators, postfix forms, calls, collection, message and scalar literals - is accepted with the right tree; trailing "
+         "commas and macro calls are outside it) and the positions of syntax errors are ANTLR's own (macro-error positions are the model's pos_for, in character columns, compared per case). "
          "The tie to the real ANTLR parser is the correspondence run: accept/reject AND the resulting tree are compared on all "
          "token strings up to length 4 over a 16-token alphabet (and 5 more alphabets up to length 3), random characters/tokens, generated "
          "valid programs and their mutations; panics, empty error lists, empty error texts and out-of-source positions (0:0 included) are failing inputs; "
